@@ -4,7 +4,7 @@ CONSTANTS
   Foreign = {"f1", "f2"}
   SKeep = {"o1", "f1"}
   SRate = 5
-  MaxEvents = 3
+  MaxEvents = 2
   CRates = {0, 3}
 INVARIANTS TypeOK NoProbeToHoneycomb HnyOnce StressMarked OneRoute PeerIntact
 PROPERTIES Remembered
